@@ -434,7 +434,9 @@ def _chunked(it, data, p):
             it.body = bytes(body)
             return it.refuse("chunk-terminator")
         p += 2
-    # trailer section: *( field-line CRLF ) CRLF
+    # trailer section: *( field-line CRLF ) CRLF -- judged once it is complete (like the header section)
+    if data[p:p + 2] != b"\r\n" and data.find(b"\r\n\r\n", p) < 0:
+        return incomplete()
     while True:
         le = data.find(b"\r\n", p)
         if le < 0:
